@@ -649,10 +649,11 @@ def check(model, rep, tier):
   fm_ = model.module('malt/converters/functions.py')
   roots = set()
   for c_ in ast.walk(ast.parse(fm_.src)):
-    if isinstance(c_, ast.Call) and isinstance(c_.func, ast.Attribute) and \
-        c_.func.attr == 'new_symbol' and c_.args and isinstance(c_.args[0], ast.Constant) \
-        and isinstance(c_.args[0].value, str) and 'scope' in c_.args[0].value:
-      roots.add(c_.args[0].value)
+    # the roots handed to the namer for the scope object: 'fscope', 'lscope'
+    # (string constants of the functions pass, wherever they are kept)
+    if isinstance(c_, ast.Constant) and isinstance(c_.value, str) and _re.match(
+        r'^[a-z]{1,3}scope$', c_.value):
+      roots.add(c_.value)
   if not roots:
     raise core.AnalysisError('scope-object name roots not found in functions.py')
   pat_ = _re.compile(r'^(%s)(_\d+)?$' % '|'.join(sorted(_re.escape(r_) for r_ in roots)))
